@@ -33,7 +33,10 @@ func c18Progs(native bool) []*actlang.Prog {
 	if native {
 		ps = append(ps, prog(true, Op{K: actlang.NativeNilExec}), prog(true, Op{K: actlang.NativeErrPartial}))
 	} else {
-		ps = append(ps, prog(false, Op{K: actlang.MutateDeep, A: "cfg!.a"}))
+		ps = append(ps, prog(false, Op{K: actlang.MutateDeep, A: "cfg!.a"}),
+			prog(false, Op{K: actlang.MutateDeep, A: "cfg!.a.1.b"}),
+			prog(false, Op{K: actlang.MutateDeep, A: "cfg!.a.1.b"}, Op{K: actlang.Throw}),
+			prog(false, Op{K: actlang.MutateDeep, A: "cfg!.a.1.b"}, Op{K: actlang.RetNull}))
 	}
 	return ps
 }
